@@ -20,7 +20,7 @@ func init() {
 			`R04.4 symlink destinations read from disk are compared with / created from the signed Dest modulo filepath.FromSlash only (tlc records Readlink verbatim). ` +
 			`R04.6 also: the strong hash written does not come out of a variable that survives from one block to the next (captured variable, field, package variable, map). ` +
 			`R13.10 (shared) ReadMessage fails on a decoded length beyond a constant only if WriteMessage fails beyond a constant that is not larger (the container is one message). ` +
-			`R13.12 (shared) CompressWire hands back its input context only through the outcome Algorithm == NONE. R04.7 every string-keyed map in package pwr whose key derives from an entry's Path (ComputeHashInfo's path-to-index map, WritePatch's) is keyed by the path itself or a one-to-one image (separators converted, Clean, a constant added) - never through ToLower/Base/Trim/a slice. R08.7 (shared) the block split function returns data[:blockSize], or data where len(data) >= blockSize is known not to hold. NOT decided: block boundaries under re-chunking, hash values, that validating a pristine copy reports nothing.`,
+			`R13.12 (shared) CompressWire hands back its input context only through the outcome Algorithm == NONE. R04.7 every string-keyed map in package pwr whose key derives from an entry's Path (ComputeHashInfo's path-to-index map, WritePatch's) is keyed by the path itself or a one-to-one image (separators converted, Clean, a constant added) - never through ToLower/Base/Trim/a slice. R08.7 (shared) the block split function returns data[:blockSize], or data where len(data) >= blockSize is known not to hold. R04.8 no buffer handed to HashBlock / uniqueHash / the weak hash is cut at the count a single Read returned (io.ReadFull / ReadAtLeast counts and scanner tokens are what the producers use); R04.5 also accepts the count of a read into a buffer cut at a length tested short. NOT decided: block boundaries under re-chunking, hash values, that validating a pristine copy reports nothing.`,
 		Run: runC04,
 	})
 }
@@ -125,6 +125,7 @@ func runC04(c *core.Ctx) {
 	ruleReaderAcceptsWhatWriterWrites(c, "R13.10")
 	rulePassThroughOnlyForNone(c, "R13.12")
 	ruleSplitTokensAreOneBlock(c, "R08.7")
+	ruleHashedBlocksAreReadInFull(c, "R04.8")
 	rulePathKeysAreOneToOne(c, "R04.7", 4, func(fn *ssa.Function) bool { return strings.HasSuffix(core.PkgPathOf(fn), "/pwr") })
 	ruleCopyWritesWhatItRead(c, "R01.6")
 
@@ -455,6 +456,35 @@ func ruleShortSizeIsShort(c *core.Ctx, rule string) {
 			if short {
 				continue
 			}
+			// the count of a read into a buffer cut at a length that a test on the way found short: it cannot
+			// exceed that length
+			if ex, isEx := x.(*ssa.Extract); isEx && ex.Index == 0 {
+				if rc, isCall := ex.Tuple.(*ssa.Call); isCall {
+					nm := core.CalleeName(rc)
+					if nm == "io.ReadFull" || nm == "io.ReadAtLeast" || (rc.Call.IsInvoke() && rc.Call.Method.Name() == "Read") {
+						var bufArg ssa.Value
+						if rc.Call.IsInvoke() {
+							if len(rc.Call.Args) == 1 {
+								bufArg = rc.Call.Args[0]
+							}
+						} else if len(rc.Call.Args) >= 2 {
+							bufArg = rc.Call.Args[1]
+						}
+						if sl, isSl := bufArg.(*ssa.Slice); isSl && sl.High != nil {
+							hi := core.StripConv(sl.High)
+							isHi := func(y ssa.Value) bool { return sameVal(core.StripConv(y), hi) || sameExpr(core.StripConv(y), hi) }
+							for _, g := range append(append([]core.Guard{}, vc.guards...), core.Guards(rc)...) {
+								if relHolds(g, token.LSS, isHi, anyVal) {
+									short = true
+								}
+							}
+						}
+					}
+				}
+			}
+			if short {
+				continue
+			}
 			ok, why = false, core.Describe(vc.v)
 		}
 		c.Check(ok, rule, core.FnName(fn), "value stored to BlockHash.ShortSize", core.InstrPos(at),
@@ -589,4 +619,77 @@ func ruleSignedHashesAreComputed(c *core.Ctx, rule string) {
 		})
 	}
 	c.Floor(rule, "calls of a signature writer", n, 1)
+}
+
+// rememberedSource: does v (a hash) come out of a variable that lives longer than this call - a field, a
+// captured variable, a package variable, a map? Locals of the call are followed to what was stored in them.
+func rememberedSource(v ssa.Value) string {
+	remembered := ""
+	seen := map[ssa.Value]bool{}
+	var walk func(v ssa.Value)
+	walk = func(v ssa.Value) {
+		v = core.StoredHere(core.StripConv(v))
+		if seen[v] {
+			return
+		}
+		seen[v] = true
+		switch x := v.(type) {
+		case *ssa.Phi:
+			for _, e := range x.Edges {
+				walk(e)
+			}
+		case *ssa.UnOp:
+			if x.Op != token.MUL {
+				return
+			}
+			switch r := x.X.(type) {
+			case *ssa.FreeVar:
+				remembered = "the captured variable " + r.Name()
+			case *ssa.FieldAddr:
+				_, n, _ := core.FieldOf(r)
+				remembered = "the field " + n
+			case *ssa.Global:
+				remembered = "the package variable " + r.Name()
+			case *ssa.Alloc:
+				for _, st := range core.CellStores(r) {
+					walk(st.Val)
+				}
+			}
+		case *ssa.Lookup:
+			remembered = "a map"
+		}
+	}
+	walk(v)
+	return remembered
+}
+
+// ruleStrongHashIsComputedEachTime (R18.8): the strong hash the hashing context returns for a block
+// (HashBlock's second result, uniqueHash's result) is computed in that call - no return hands back a hash
+// out of a field, a captured or package variable, or a map. A hash remembered under a key that is less
+// than the content (length and weak hash, say) is the hash of another block: a block that differs from the
+// signed one is then found equal to it, and an equal one found different.
+func ruleStrongHashIsComputedEachTime(c *core.Ctx, rule string) {
+	c.Rule(rule, "the strong hash of a block is computed from the block on every call")
+	n := 0
+	for _, spec := range []struct {
+		name string
+		idx  int
+	}{{"Context.HashBlock", 1}, {"Context.uniqueHash", 0}} {
+		fn := c.P.Fn("wsync", spec.name)
+		if fn == nil {
+			c.Missing(rule, "wsync.(*"+spec.name+")", "not found")
+			continue
+		}
+		for _, rs := range core.Returns(fn, spec.idx) {
+			if rs.Val == nil {
+				continue
+			}
+			n++
+			rem := rememberedSource(rs.Val)
+			c.Check(rem == "", rule, core.FnName(fn), "the strong hash returned is computed in this call", core.InstrPos(rs.Ret),
+				"the value returned does not come out of a variable that outlives the call",
+				"the strong hash returned for a block can come out of "+rem+", filled in while hashing an earlier block: whatever key decided that it is 'the same block' is less than the content, so a block that differs from the signed one can be given the signed block's hash (and pass), and a block equal to it another's (and be rejected or reported as a wound)")
+		}
+	}
+	c.Floor(rule, "returns of the strong-hash functions", n, 2)
 }
